@@ -1198,9 +1198,12 @@ stream_encoder_mt_init(lzma_next_coder *next, const lzma_allocator *allocator,
 		coder->threads_initialized = 0;
 	}
 
-	// Allocate the thread-specific base structures.
+	// Allocate the thread-specific base structures. The input buffers
+	// of the existing threads have been allocated for the old block_size
+	// so the threads cannot be reused if the block size changes.
 	assert(options->threads > 0);
-	if (coder->threads_max != options->threads) {
+	if (coder->threads_max != options->threads
+			|| coder->block_size != block_size) {
 		threads_end(coder, allocator);
 
 		coder->threads = NULL;
